@@ -9,6 +9,7 @@ import hashlib
 import io
 
 import ZConfig
+import ZConfig.loader
 
 from zcsim import layout
 from zcsim import ops
@@ -48,7 +49,9 @@ REAL_STUB = {
 }
 
 SCHEMA_URL = "file:///sim/schema/s.xml"
-MODES = ["url", "url", "file+url", "file-nourl"]
+# 'loader': one ConfigLoader object serves the baseline and every injected
+# load of the scenario (hundreds of loads, nearly all of them failing)
+MODES = ["url", "loader", "file+url", "file-nourl"]
 
 
 def generate(rng, tier, index):
@@ -78,10 +81,12 @@ def generate(rng, tier, index):
             "kinds": kinds, "eol": eol}
 
 
-def _load(schema, world, res, top, mode, eol=None):
+def _load(schema, world, res, top, mode, eol=None, loader=None):
     eol = eol or {}
     world.store = {u: TF.join(ls, *eol.get(u, ("\n", True)))
                    for u, ls in res.items()}
+    if mode == "loader":
+        return loader.loadURL(top)
     if mode == "url":
         return ZConfig.loadConfig(schema, top)
     text = world.store[top]
@@ -141,8 +146,11 @@ def execute(plan):
         base_res = TF.res_texts(uni)
         w.begin_op("baseline")
         eol = plan.get("eol")
+        loader = None
+        if mode == "loader":
+            loader = ZConfig.loader.ConfigLoader(schema)
         bo = ops.config_outcome(
-            lambda: _load(schema, w, base_res, top, mode, eol))
+            lambda: _load(schema, w, base_res, top, mode, eol, loader))
         out["evaluations"] += 1
         if not bo["ok"]:
             out["waste"] += 1
@@ -157,7 +165,7 @@ def execute(plan):
             res = TF.apply(base_res, inj)
             w.begin_op("inject")
             o = ops.config_outcome(
-                lambda: _load(schema, w, res, top, mode, eol))
+                lambda: _load(schema, w, res, top, mode, eol, loader))
             out["evaluations"] += 1
             if o["ok"]:
                 out["waste"] += 1
